@@ -297,7 +297,7 @@ def gen_mh(rng):
         else:
             common_ = rng.randint(0, min(la, lb))
         lines.append(f"mh {kind} {la} {lb} {common_} {scaled} {k} ? ? ? ?")
-        if rng.random() < 0.35:
+        if rng.random() < 0.2:
             # the same pair through the compare-level ANI entry points (serial, n_jobs=2, containment / max / avg builders)
             lines.append(f"cmpani {la} {lb} {common_} {scaled} {k} {int(rng.random() < 0.5)} ? ? ? ? ? ?")
     return lines
@@ -362,6 +362,59 @@ def gen_native(rng):
     return lines
 
 
+def _je(la, lb, cm, scaled, k):
+    """closed form of the Jaccard error bound of jaccard_to_distance for two sketches (binary64, as the code evaluates it)"""
+    j = cm / (la + lb - cm)
+    if j in (0, 1):
+        return 0.0
+    n = round((la + lb) / 2 * scaled)
+    r1 = 1.0 - (2.0 * j / (1 + j)) ** (1.0 / k)
+    q = 1 - (1 - r1) ** k
+    var = n * (1 - q) * (q * (2 * k + (2 / r1) - 1) - 2 * k) + k * (k - 1) * (1 - q) ** 2 + (2 * (1 - q) / (r1 ** 2)) * ((1 + (k - 1) * (1 - q)) * r1 - q)
+    if var < 0:
+        return None
+    return n * var / (n + n * q) ** 3
+
+
+def gen_jewin(rng):
+    """boundary flavour: size-accurate sketch pairs whose Jaccard error bound lies just below / inside / just above the
+    windows around the documented err_threshold 1e-4 (and around 1e-3, the prob_threshold it is easily confused with):
+    the estimate must be withheld exactly above 1e-4, through every entry point"""
+    lines = []
+    targets = [1e-4, 1e-4, 1e-3]
+    for t in targets:
+        best = {}
+        for _ in range(300):
+            scaled = rng.choice([1, 1, 100])
+            la = rng.randint(200, 4000) if scaled == 1 else rng.randint(130, 500)
+            lb = rng.choice([la, rng.randint(200, 4000) if scaled == 1 else rng.randint(130, 500)])
+            cm = rng.randint(1, min(la, lb))
+            k = rng.choice([7, 21, 31, 51])
+            v = _je(la, lb, cm, scaled, k)
+            if v is None or v <= 0:
+                continue
+            side = "above" if v > t else "below"
+            if side not in best or abs(v - t) < abs(best[side][0] - t):
+                best[side] = (v, la, lb, cm, scaled, k)
+        mid = [(v, la, lb, cm, sc, k) for v, la, lb, cm, sc, k in best.values()]
+        for v, la, lb, cm, sc, k in mid:
+            lines.append(f"mh jac {la} {lb} {cm} {sc} {k} ? ? ? ?")
+            if rng.random() < 0.5:
+                lines.append(f"cmpani {la} {lb} {cm} {sc} {k} {int(rng.random() < 0.3)} ? ? ? ? ? ?")
+            if rng.random() < 0.3:
+                lines.append(f"cls {la} {lb} {cm} 0 0 {sc} {sc} {k} {rng.choice(['-', sc])} 0 {bits(0.95)} " + " ".join(["?"] * 17))
+    # and well inside (1e-4, 1e-3]
+    for _ in range(200):
+        la = rng.randint(300, 4000)
+        cm, k = rng.randint(1, la), rng.choice([7, 21, 31, 51])
+        v = _je(la, la, cm, 1, k)
+        if v is not None and 2e-4 < v < 8e-4:
+            lines.append(f"mh jac {la} {la} {cm} 1 {k} ? ? ? ?")
+            lines.append(f"cmpani {la} {la} {cm} 1 {k} 1 ? ? ? ? ? ?")
+            break
+    return lines
+
+
 def gen_cls(rng):
     """the SAME kind of sketch pairs as the `mh` flavour, through FracMinHashComparison / PrefetchResult / GatherResult /
     SearchResult: equal or different scaled, comparison scaled None / max / coarser / (rarely) finer than the sketches,
@@ -393,7 +446,7 @@ def gen_cls(rng):
 
 
 def gen_case(rng, flavour):
-    g = {"cls": gen_cls, "closed": gen_closed, "res": gen_res, "ci": gen_ci, "mh": gen_mh, "sia": gen_sia, "native": gen_native}[flavour]
+    g = {"jewin": gen_jewin, "cls": gen_cls, "closed": gen_closed, "res": gen_res, "ci": gen_ci, "mh": gen_mh, "sia": gen_sia, "native": gen_native}[flavour]
     return fill(g(rng))
 
 
@@ -437,6 +490,14 @@ def oracle(case, impl):
             continue
         r = parse(o)
         op = w[0]
+        if o.startswith("history-differs"):
+            bad.append((idx, f"C17:history-differs:{op}", f"{o[:200]} [{' '.join(w[:5])}]"))
+            continue
+        if o.startswith("routes-differ") or " views=DIFF:" in o:
+            what = o if o.startswith("routes-differ") else o.split(" views=DIFF:", 1)[1]
+            bad.append((idx, f"C17:views-differ:{op}", f"the same quantity read / computed two ways differs: {what[:300]} [{' '.join(w[:12])}]"))
+            if o.startswith("routes-differ"):
+                continue
         if op in ("c2d", "c2dci", "j2d"):
             x, k, scaled, n = fl(w[1]), int(w[2]), int(w[3]), int(w[4])
             kind = "j" if op == "j2d" else "c"
@@ -529,6 +590,10 @@ def oracle(case, impl):
         elif op == "mh":
             kind, la, lb, cm, scaled, k = w[1], int(w[2]), int(w[3]), int(w[4]), int(w[5]), int(w[6])
             acc = r.get("acc")
+            if r.get("routes", "ok") != "ok":
+                bad.append((idx, f"C17:routes-differ:{kind}",
+                            f"the same estimate through different entry points: {o.split('routes=', 1)[1][:160]} "
+                            f"[{la} vs {lb} hashes, {cm} shared, scaled {scaled}, k {k}]"))
             if " err " in " " + o + " ":
                 n = round((la + lb) / 2 * scaled) if kind == "jac" else min(la, lb) * scaled
                 if kind == "jac" and n < k:
